@@ -1270,6 +1270,7 @@ var corpus = []envCase{
 	{[]string{`func g(a) {a+1}`, `h = g`}, 0},
 	{[]string{`f1 = () => {a || b}`, `f2 = () => {a = 3}`, `f3 = () => {return 1}`, `g1 = () => {a && b}`, `f9 = (a) => {a := 1}`, `g8 = () => {/*c*/}`, `g3 = () => {1:2}`}, 0},
 	{[]string{`f = (a,b,c) => a+(b+c)`}, 0},
+	{[]string{`func f(a,b,c) {a - -b*c}`, `g = (a,b,c) => a + +b/c - -a%c`, `func h(a,b) {[a - -b*2][0] + max(a - -b/2, a)}`}, 0}, // round 11: the signed operand is the leftmost leaf of the right operand
 	{[]string{`func f(a,b) {a;-b}`}, 0},
 	{[]string{`f = a => (1).x`}, 0},
 	{[]string{`func f(a,b) {a +
